@@ -59,6 +59,12 @@ def check_cfg(ctx, fx, cfg):
     from props.c04 import check_submit_on_ok
     for e in RESTART_ENTRIES:
         check_submit_on_ok(ctx, fx, "R07.1", e, set(RESTART_ENTRIES))
+    # R07.7 (shared with C10) "timers registered by the previous incarnation no longer fire": a timer is one registered task that
+    # sleeps and submits in a loop of its own — which is what the restart aborts; a tick that re-arms the timer from the mailbox
+    # (a new registration made by whichever incarnation handles the tick) survives the abort of the incarnation that created it
+    if cfg != "bare":
+        from props import c10 as _c10
+        core.shared(ctx, "R07.7", _c10.check_timer_protocol, ctx, fx, cfg, "R07.7")
     # R07.6 identity: no new Context (hence no new ContextID) and no new channel is created while an actor lives —
     # nothing reachable from the loops or the restart strategies constructs a Context or a mailbox queue
     from mir import agg_sites
@@ -223,7 +229,10 @@ def check_cfg(ctx, fx, cfg):
             is_env = lambda t, mk_=mk_, _ctors=_ctors: (t.get("callee") or "").startswith("environment::Environment::<A, R>::") and ((t.get("callee") or "").endswith(("create_loop", "create_loop_on_stream")) or t.get("callee") in mk_ or t.get("callee") in _ctors)
             # the wiring may sit in a function the terminal hands its builder to (spawn = spawn_owning().detach(), a shared private helper)
             wf = graph.wiring_fn(fx, term, is_env) or f
-            b = ctx.body(fx, wf)
+            import inline
+            def _builder_helpers(g, t):  # the builder's own private helpers, not the environment's functions that are looked for
+                return inline.not_public(g, t) and not g["def"].startswith("environment::")
+            b = inline.body(ctx, fx, wf, _builder_helpers)  # (`let (actor, env) = self.into_parts();` builds the environment)
             envs = [t for _, t in b.normal_calls() if is_env(t)]
             ok = len(envs) >= 2 and all(t["gargs"][:2] == ["A", want] for t in envs)
             ctx.require(ok, "R07.4", "terminal:%s@%s" % (term.split("::", 2)[-1], cfg), "the terminal must run the loop with the builder's own strategy (%s): %s" % (want, [t["gargs"][:2] for t in envs]), fn=term, site=f["loc"])
